@@ -1,4 +1,4 @@
-HOOK_COMMITS = ["74bf6ff", "82c1591", "9aba3ab", "7b80cf4"]
+HOOK_COMMITS = ["74bf6ff", "82c1591", "9aba3ab", "7b80cf4", "aa851e5", "4f43e9e"]
 
 ALL = ["C%02d" % i for i in range(1, 21)]
 
@@ -19,6 +19,19 @@ LOAD_NOTE = ("Trusted: Coq kernel, extraction, OCaml replayer, Go harness with a
 LOAD_TECH = "Coq proof: invariant by induction over all event sequences of a protocol model + scripted interleavings executed on the implementation with a gated loader"
 
 TEXTS = {
+    "C02": dict(text="Coq theorem over an action-level concurrent model (all programs of Set/SetIfAbsent/GetIfPresent/GetEntry/Compute*/Invalidate and automatic removals, all schedules, any number of threads): replaying the "
+                     "operations in the order of their decisive atomic actions through the sequential model yields exactly the observed return values and the same table; the second phase of a two-phase compute equals "
+                     "the whole operation executed atomically at that instant. Engine: concurrent histories of the real cache (growing/shrinking/evicting underneath) checked per key for a linearization by a Wing-Gong search whose "
+                     "oracle is the extracted model; compute callbacks counted.",
+               design_ref="DESIGN.md section 5, C02",
+               note="Trusted: Coq kernel, extraction, OCaml search, Go harness. Meta-assumption: atomicity of the table's Get/Compute (C15) and sequential consistency of sync/atomic. No expiry calculator in the theorem.",
+               technique="Coq proof (simulation invariant over all schedules of an action-level model) + linearizability search on recorded concurrent histories with the extracted model as oracle"),
+    "C14": dict(text="Coq theorems, exhaustive over ALL schedules for a bounded initial population (1 writer; 2 concurrent writers; every maintenance task they spawn): in every terminal configuration of the small-step drain-status "
+                     "model all threads have finished, the write buffer is empty, the status is idle and the lock is free — proved by computing the closed reachable set in the kernel (vm_compute) plus a soundness lemma. "
+                     "Engine: the real cache with the default executor under hook-injected perturbation; after the calls return only atomic loads are made and quiescence, bound, policy links and notification counts are checked.",
+               design_ref="DESIGN.md section 5, C14",
+               note="Trusted: Coq kernel incl. vm_compute, std++ gset; Go harness and hook points (tag verif). The unbounded-threads statement is not proved; the model is not replayed against the code step by step (the tie is the engine's oracle under perturbed schedules).",
+               technique="Coq: kernel-checked exhaustive exploration of a small-step protocol model with a proved closure/soundness lemma (bounded population, all schedules) + perturbed stress with a no-further-calls quiescence oracle"),
     "C08": dict(text="Coq theorems over the single-flight protocol model (any number of threads and keys, every event order): loader intervals for one key never overlap unless a write/invalidation/eviction superseded the older call; "
                      "a caller that finds a registered call joins it; every waiter is released by its call's finish for every outcome including panic; no in-flight record survives. Tied to the code by executing scripted interleavings "
                      "with a gated loader and comparing joins, loader starts, releases and values with the model after every step.",
@@ -106,5 +119,4 @@ TEXTS = {
     ),
 }
 
-NOT_APPLICABLE = [dict(property_id=p, reason="check not built yet in this revision (work in progress; see DESIGN.md section 9)")
-                  for p in ALL if p not in TEXTS]
+NOT_APPLICABLE = []
